@@ -250,6 +250,19 @@ pub fn run_sessions(cfg: &ScenCfg, out: &mut RunOut) {
                     trace.push(format!("{} clients close at once", ids.len()));
                 }
             }
+            4 if cfg.faults && chance(1, 2) => {
+                // accept() fails once (a connection that was reset before it could be accepted, a momentary
+                // lack of descriptors): that is not the end of the listener, nor of the sessions
+                if rig.is_some() {
+                    let kind = [std::io::ErrorKind::ConnectionAborted, std::io::ErrorKind::ConnectionReset, std::io::ErrorKind::Other, std::io::ErrorKind::OutOfMemory][choose(4) as usize];
+                    net::inject_accept_error(addr, kind);
+                    kernel::settle();
+                    // (a listener may pause before accepting again after some errors)
+                    kernel::advance(2_000_000_000);
+                    out.probe("accept_error_injected");
+                    trace.push(format!("accept error {:?}", kind));
+                }
+            }
             4 => {
                 if let Some(r) = rig.as_mut() {
                     let mut fut = Box::pin(r.handle.set_decode_level(decode_level(choose(36) as u8)));
